@@ -52,6 +52,10 @@ var (
 		{a120, 12, a112, 2}, {a111, 2, a113, 1}, {a210, 11, a211, 1}, {a220, 11, a221, 1}}
 )
 
+// twin is the ISD-AS with the AS number of x under the other ISD (AS numbers are
+// only unique per ISD): never part of the topology.
+func twin(x addr.IA) addr.IA { return addr.MustIAFrom(3-x.ISD(), x.AS()) }
+
 func has(l []addr.IA, x addr.IA) bool {
 	for _, y := range l {
 		if x == y {
@@ -363,6 +367,9 @@ func genGet(r *vgen.Rand, mutated bool) *getCase {
 		if mutated && r.Chance(1, 3) {
 			// the inspector's view differs from the topology the segments come from
 			c.insp.cores = pickCores(r)
+			if r.Chance(1, 3) {
+				c.insp.cores = append(c.insp.cores, twin(vgen.Pick(r, c.insp.cores...)))
+			}
 		}
 	}
 	switch x := r.Intn(20); {
@@ -376,6 +383,9 @@ func genGet(r *vgen.Rand, mutated bool) *getCase {
 		c.dst = addr.MustIAFrom(0, vgen.Pick(r, allAS...).AS())
 	case x == 17:
 		c.dst = addr.MustIAFrom(3, addr.AS(r.Intn(2))*0xff0000000310)
+	case x == 18:
+		// same AS number as the local AS or a core AS, other ISD
+		c.dst = twin(vgen.Pick(r, append([]addr.IA{c.local}, c.cores...)...))
 	default:
 		c.dst = vgen.Pick(r, a110, a120, a210, a220)
 	}
@@ -425,6 +435,9 @@ func (c *getCase) addRevs(r *vgen.Rand, cand []ifc, mutated bool) {
 		var k ifc
 		if len(cand) > 0 && r.Chance(4, 5) {
 			k = cand[r.Intn(len(cand))]
+			if r.Chance(1, 6) {
+				k.ia = twin(k.ia) // same AS number and interface id, other ISD: revokes nothing
+			}
 		} else {
 			k = ifc{vgen.Pick(r, allAS...), uint64(r.Range(1, 12))}
 		}
@@ -467,7 +480,7 @@ func main() {
 	run.CaseType = "Pather.case"
 	run.ShardSize = 100
 	run.Prelude = "Import Pather."
-	run.Rule = "split: exhaustive grid (source core flag x 3 local ASes x inspector nil/failing/8 core sets x 14 " +
+	run.Rule = "split: exhaustive grid (source core flag x 3 local ASes x inspector nil/failing/11 core sets (incl. same AS number in the other ISD) x 17 " +
 		"destinations) on the real MultiSegmentSplitter; get: real Pather.GetPaths over a 10-AS/2-ISD topology with " +
 		"random core sets, a pool of real up/down/core segments (fresh or expired, margins >= 30 s), real combinator, " +
 		"real memrevcache with 0-4 active/expired revocations mostly on candidate-path interfaces, destinations " +
@@ -479,9 +492,9 @@ func main() {
 
 	// 1. the splitter alone, exhaustive grid
 	coreSets := [][]addr.IA{{}, {a110}, {a110, a120}, {a120}, {a110, a210}, {a110, a120, a210, a220},
-		{a120, a210}, {a210, a220}}
+		{a120, a210}, {a210, a220}, {twin(a110)}, {a110, twin(a110)}, {twin(a111), a210}}
 	dsts := append(append([]addr.IA(nil), allAS...), addr.MustIAFrom(1, 0), addr.MustIAFrom(2, 0),
-		addr.MustIAFrom(3, 0), ia("3-ff00:0:310"))
+		addr.MustIAFrom(3, 0), ia("3-ff00:0:310"), twin(a110), twin(a111), twin(a210))
 	for _, local := range []addr.IA{a110, a111, a210} {
 		for _, core := range []bool{false, true} {
 			for mode := 0; mode < 2+len(coreSets); mode++ {
@@ -514,7 +527,7 @@ func main() {
 	}
 
 	// 2. GetPaths
-	n := run.Count(1500, 30000)
+	n := run.Count(1000, 30000)
 	for i := 0; i < n; i++ {
 		r := rng.Fork(uint64(i))
 		mutated := i%4 == 3
